@@ -26,7 +26,7 @@ META = {
     "bounds": {
         "quick": {"script_length": "<= 4 items over {return, call f, call g, call h, raise}", "values": "base + k, base an unbounded Int",
                   "selectors": "35 chain/sibling selectors up to depth 3"},
-        "thorough": {"script_length": "<= 6 items over {return, call f/g/h, raise, call-catching f/g/h}", "values": "as quick",
+        "thorough": {"script_length": "<= 5 items over {return, call f/g/h, raise, call-catching f}", "values": "as quick",
                      "selectors": "as quick, both probing() and BaseOverlay(Immediate) on @tooled functions"},
     },
     "out_of_scope": ["call trees deeper/longer than the script bound", "the order in which the embeddings of one binding are delivered "
@@ -119,18 +119,9 @@ def build(case):
                 rest.pop(hit)
 
     n = p["n"]
-    if n == 4:
-        def h4(base: int, s0: int, s1: int, s2: int, s3: int):
-            core(base, [s0, s1, s2, s3])
-        return h4
-    if n == 5:
-        def h5(base: int, s0: int, s1: int, s2: int, s3: int, s4: int):
-            core(base, [s0, s1, s2, s3, s4])
-        return h5
+    from pv.engine.xsym import int_harness
 
-    def h6(base: int, s0: int, s1: int, s2: int, s3: int, s4: int, s5: int):
-        core(base, [s0, s1, s2, s3, s4, s5])
-    return h6
+    return int_harness(lambda base, *sc: core(base, list(sc)), ["base"] + [f"s{i}" for i in range(n)])
 
 
 def cases(tier, seed):
@@ -139,7 +130,7 @@ def cases(tier, seed):
     for i, name in enumerate(SPECS):
         mechs = ["probing", "overlay"] if th else (["probing"] if i % 3 else ["overlay"])
         for mech in mechs:
-            cs.append({"id": f"{name}:{mech}", "params": {"spec": name, "mech": mech, "n": 6 if th else 4, "alpha": 8 if th else 5},
+            cs.append({"id": f"{name}:{mech}", "params": {"spec": name, "mech": mech, "n": 5 if th else 4, "alpha": 6 if th else 5},
                        "budget_s": 3000 if th else 200, "per_path_s": 30})
     cs.append({"id": "f(a)>g(b)>x:probing:twin", "params": {"spec": "f(a)>g(b)>x", "mech": "probing", "n": 4, "alpha": 4},
                "vacuity_twin": True, "stop_on_refute": True, "budget_s": 100})
